@@ -54,7 +54,12 @@ class Guard:
         self.node = node
 
     def text(self):
-        s = ast.unparse(self.test) if self.test is not None else 'except'
+        if self.test is None and self.rf is not None and hasattr(self.rf, 'tab') and \
+                getattr(self.rf.tab.atoms[self.rf.single_atom()] if self.rf.single_atom() is not None else None,
+                        'head', '') != 'except':
+            s = self.rf.tab.fmt(self.rf)[:120]
+        else:
+            s = ast.unparse(self.test) if self.test is not None else 'except'
         return s if self.positive else 'not (%s)' % s
 
 
